@@ -20,6 +20,8 @@ def run(sub):
         print('=====', q)
         rep = verify.verify_function(reg, c)
         print('paths', rep.paths, 'aborted', rep.aborted_paths, 'outcomes', rep.outcomes)
+        for q in rep.slow_queries:
+            print('  SLOW', q)
         for u in rep.unsupported:
             print('  UNSUPPORTED', u)
         for e in rep.errors:
